@@ -48,8 +48,11 @@ type Gen struct {
 	r       *rng
 	Hostile bool // strings from the hostile alphabet too
 	Tokens  bool // put a unique token into every string: Uq<n>z in unsafe channels, Sq<n>z in safe ones
-	tok     int
-	MaxKids int
+	// QuoteSafe: some safe constants put their token between guillemets used as quotation marks
+	// (only for streams whose relation is not restricted to marker-free inputs)
+	QuoteSafe bool
+	tok       int
+	MaxKids   int
 	// which families of nodes to use
 	NoForeign   bool
 	NoMulti     bool
@@ -120,7 +123,7 @@ func (g *Gen) strc(safe bool) string {
 		if g.Hostile && g.r.chance(50) {
 			// token in the middle: hostile material on both sides
 			s = s + t + g.r.pick(hostilePool)
-		} else if safe && g.r.chance(8) {
+		} else if safe && g.QuoteSafe && g.r.chance(8) {
 			// guillemets used as quotation marks in a safe constant: escaped, never a redaction envelope
 			s = "\u2039" + t + "\u203a " + s
 		} else if g.r.chance(50) {
